@@ -365,6 +365,24 @@ fn main() {
             });
         }
     }
+    if mine() {
+        // the same pending timer cleared twice before it is next polled, then answered
+        typed_pattern(r, &wd, Pattern { name: "timer-set-clear-twice-fire(capability api, typed)", known: &[] }, k, |sh, _| {
+            let reqs = sh.send(&Job::Time(Api::Legacy, TimeJob::NotifyAfterNanos(5)))?;
+            let (h, id) = match &reqs[..] {
+                [(h, Op::Time(TimeRequest::NotifyAfter { id, .. }))] => (*h, *id),
+                other => return Err(format!("unexpected effects {other:?}")),
+            };
+            for _ in 0..2 {
+                for (ch, _) in sh.send(&Job::Time(Api::Legacy, TimeJob::Clear(id.0 as u64)))? {
+                    sh.drop_request(ch);
+                }
+            }
+            sh.respond(h, Resp::Time(TimeResponse::DurationElapsed { id }))?;
+            sh.drop_request(h);
+            Ok(())
+        });
+    }
     for (api, name) in [(Api::Legacy, "kv-cycle(capability api, typed)"), (Api::Command, "kv-cycle(command api, typed)")] {
         if mine() {
             typed_pattern(r, &wd, Pattern { name, known: &[] }, k, |sh, i| {
